@@ -176,3 +176,48 @@ func thmHeadersVerbatim(h1, h2 string) {
 	//@ assert len(deref(x2)) == len(h2) && forall j int :: 0 <= j && j < len(h2) ==> deref(x2)[j] == h2[j]
 	_, _, _, _ = x1, x2, e1, e2
 }
+
+//@ theorem C06.headersCRLF
+//@   props C06 C03
+//@   requires len(h1) >= 1 && h1[0] == '@' && len(h2) >= 1 && h2[0] == '@'
+//@   requires forall j int :: 0 <= j && j < len(h1) ==> h1[j] != 10 && h1[j] != 13
+//@   requires forall j int :: 0 <= j && j < len(h2) ==> h2[j] != 10 && h2[j] != 13
+//@   loop 1
+//@     invariant n == K && (n > 0 ==> e1 == Z1[0].1 && x1 == Z1[0].0.H) && (n > 1 ==> e2 == Z1[1].1 && x2 == Z1[1].0.H)
+// The same two header lines terminated by CRLF are yielded as the same two items: the CR is not part of the line.
+func thmHeadersCRLF(h1, h2 string) {
+	buf := &bytes.Buffer{}
+	buf.WriteString(h1)
+	buf.WriteByte('\r')
+	buf.WriteByte('\n')
+	buf.WriteString(h2)
+	buf.WriteByte('\r')
+	buf.WriteByte('\n')
+	//@ assert len(buf.out) == len(h1) + len(h2) + 4 && buf.out[len(h1)] == 13 && buf.out[len(h1) + 1] == 10
+	//@ assert buf.out[len(h1) + 2 + len(h2)] == 13 && buf.out[len(h1) + 3 + len(h2)] == 10
+	//@ assert forall j int :: 0 <= j && j < len(h1) ==> buf.out[j] == h1[j]
+	//@ assert forall j int :: 0 <= j && j < len(h2) ==> buf.out[len(h1) + 2 + j] == h2[j]
+	//@ assert lnN(arr(buf.out), len(buf.out)) >= 1
+	//@ assert lnT(arr(buf.out), len(buf.out), 0) == len(h1) + 1 && lnS(arr(buf.out), len(buf.out), 1) == len(h1) + 2
+	//@ assert lnE(arr(buf.out), len(buf.out), 0) == len(h1)
+	//@ assert lnT(arr(buf.out), len(buf.out), 1) == len(h1) + 3 + len(h2) && lnN(arr(buf.out), len(buf.out)) == 2
+	//@ assert lnE(arr(buf.out), len(buf.out), 1) == len(h1) + 2 + len(h2)
+	//@ assert !lblank(arr(buf.out), len(buf.out), 0) && !lblank(arr(buf.out), len(buf.out), 1)
+	//@ assert nbl(arr(buf.out), len(buf.out), 1) == 1 && nbl(arr(buf.out), len(buf.out), 2) == 2
+	var x1, x2 *string
+	var e1, e2 error
+	n := 0
+	for sh, err := range ReaderHeader(buf) {
+		if n == 0 {
+			x1, e1 = sh.H, err
+		}
+		if n == 1 {
+			x2, e2 = sh.H, err
+		}
+		n++
+	}
+	//@ assert n == 2 && e1 == nil && e2 == nil && x1 != nil && x2 != nil
+	//@ assert len(deref(x1)) == len(h1) && forall j int :: 0 <= j && j < len(h1) ==> deref(x1)[j] == h1[j]
+	//@ assert len(deref(x2)) == len(h2) && forall j int :: 0 <= j && j < len(h2) ==> deref(x2)[j] == h2[j]
+	_, _, _, _ = x1, x2, e1, e2
+}
